@@ -76,6 +76,11 @@ claim("C18", "E1 model",
       "Every observation of the user state must equal the fold of exactly the tokens before the observation point (per with_state scope), the final state the fold of the whole input — across backtracking, lookahead and all recovery strategies; with_state scopes inside repetitions, abandoned alternatives, recovery, nested with_state. Exhaustive small grammars x inputs, shaped placements, random larger ones; parse and check mode (probes observe in check mode).",
       MODEL_NOTE + " Pratt fold callbacks observing the state are part of the C09 driver.", "DESIGN §5 C18")
 
+claim("C15", "E1 model",
+      "runtime monitoring: reference-model monitor over context observations made at every node, in probes, select closures and fold callbacks, and over the behaviour of parsers configured from context",
+      "Grammars with context providers (with_ctx, map_ctx, then_with_ctx, ignore_with_ctx) and readers (configure(seq), configure(exactly), try_configure with an error case, probes), exhaustive small + hand-listed families (length-prefixed incl. a^n b^n, delimiter-echo, indentation-like, nested/shadowing providers, providers in repetitions/choices/recursion) + random: every observation must equal the value supplied by the nearest enclosing provider for this attempt; configured parsers must accept exactly what the reference semantics of the static configuration accepts.",
+      MODEL_NOTE, "DESIGN §5 C15")
+
 NOT_CLAIMED = {}
 
 
